@@ -27,14 +27,14 @@ Record quantified (e : entity) : Prop := mkQd {
   q_events : forallb (fun ev => type_name_ok (ev_name ev) && fields_wf (ev_fields ev) && forallb (ref_ok e) (ev_fields ev))
                      (e_events e) = true;
   q_event_opts : nodup_bytes (map (fun ev => to_snake (to_lower_camel (ev_name ev))) (e_events e)) = true;
-  q_commands : forallb (fun c => match c_name c with Some n => type_name_ok n | None => true end
+  q_commands : forallb (fun c => match c_name c with Some n => name_ok n | None => true end
                        && match c_base c with Some b => rel_path_ok b && is_nil (colon_params b) | None => true end
                        && forallb (method_wf e) (c_methods c)
                        && nodup_bytes (map md_name (c_methods c))) (e_commands e) = true;
   q_summaries : forallb (fun s => (is_nil (s_name s) || name_ok (s_name s)) && fields_wf (s_fields s)
                        && forallb (ref_ok e) (s_fields s)) (e_summaries e) = true;
   q_summary_names : nodup_bytes (map s_name (e_summaries e)) = true;
-  q_schemas : forallb (fun s => type_name_ok (schema_name s) && fields_wf (schema_fields s) && forallb (ref_ok e) (schema_fields s))
+  q_schemas : forallb (fun s => name_ok (schema_name s) && fields_wf (schema_fields s) && forallb (ref_ok e) (schema_fields s))
                       (e_schemas e) = true;
   q_main : nodup_bytes (sp_main_scope e) = true;
   q_service : nodup_bytes (sp_service_scope e) = true;
